@@ -15,6 +15,7 @@ Dtypes(f) == [j \in 1..Len(f.cols) |-> f.cols[j].dt]
 Cell(f, r, c) == At(At(f.cols, c).vals, r)          \* 0-based row r, column c
 
 Err(cat) == [k |-> "err", cat |-> cat]
+Unspecified == [k |-> "unspecified"]      \* the specification deliberately says nothing about this call
 Elem(v) == [k |-> "elem", v |-> v]
 MkSeries(index, vals, dt, name) == [k |-> "series", index |-> index, vals |-> vals, dt |-> dt, name |-> name]
 MkFrame(index, columns, cols, name) == [k |-> "frame", index |-> index, columns |-> columns, cols |-> cols, name |-> name]
@@ -30,11 +31,12 @@ Unresolved == [multi |-> TRUE, ps |-> <<>>, err |-> TRUE]
 
 IlocResolve(key, n) ==
   CASE key[1] = "all" -> Resolved(TRUE, SeqRange(n))
-    [] key[1] = "int" -> LET p == NormPos(key[2], n) IN IF p < 0 THEN Unresolved ELSE Resolved(FALSE, <<p>>)
+    [] key[1] = "int" -> LET p == NormPos(key[2], n) IN IF p < 0 THEN [Unresolved EXCEPT !.multi = FALSE] ELSE Resolved(FALSE, <<p>>)
     [] key[1] = "slice" -> Resolved(TRUE, PySlice(key[2], key[3], key[4], n))
     [] key[1] = "list" -> LET ps == [i \in 1..Len(key[2]) |-> NormPos(key[2][i], n)] IN
                           IF \E i \in 1..Len(ps) : ps[i] < 0 THEN Unresolved ELSE Resolved(TRUE, ps)
     [] key[1] = "mask" -> IF Len(key[2]) # n THEN Unresolved ELSE Resolved(TRUE, Positions(key[2]))
+    [] key[1] = "nokey" -> Resolved(TRUE, <<>>)
     [] OTHER -> Unresolved
 
 (* ---- label keys ----------------------------------------------------------------------------------------  *)
@@ -61,7 +63,7 @@ LabelSliceAsBuilt(labels, a, b, step) ==
 LocResolve(key, labels) ==
   LET n == Len(labels) IN
   CASE key[1] = "all" -> Resolved(TRUE, SeqRange(n))
-    [] key[1] = "loc" -> LET p == Find(labels, key[2]) IN IF p < 0 THEN Unresolved ELSE Resolved(FALSE, <<p>>)
+    [] key[1] = "loc" -> LET p == Find(labels, key[2]) IN IF p < 0 THEN [Unresolved EXCEPT !.multi = FALSE] ELSE Resolved(FALSE, <<p>>)
     [] key[1] = "locslice" -> LabelSliceRequired(labels, key[2], key[3], key[4])
     [] key[1] = "loclist" -> LET ps == [i \in 1..Len(key[2]) |-> Find(labels, key[2][i])] IN
                              IF \E i \in 1..Len(ps) : ps[i] < 0 THEN Unresolved ELSE Resolved(TRUE, ps)
@@ -70,6 +72,7 @@ LocResolve(key, labels) ==
          (* a Boolean Series key is aligned by label: a label selects iff the Series holds True for it *)
          Resolved(TRUE, SelectSeq(SeqRange(n), LAMBDA p : \E i \in 1..Len(key[2]) : key[2][i] = labels[p + 1] /\ key[3][i]))
     [] key[1] = "iloc" -> IlocResolve(key[2], n)
+    [] key[1] = "nokey" -> Resolved(TRUE, <<>>)
     [] OTHER -> Unresolved
 
 (* ---- selection ------------------------------------------------------------------------------------------  *)
@@ -117,22 +120,21 @@ FrameBloc(f, mask) ==
 Without(n, ps) == SelectSeq(SeqRange(n), LAMBDA p : ~Member(ps, p))
 FrameDropResolved(f, r, c) ==
   IF r.err \/ c.err THEN Err("lookup")
+  ELSE IF Dups(r) \/ Dups(c) THEN Unspecified       \* a drop key naming a label twice: accepted positionally, rejected by label
   ELSE LET keepr == Without(NRows(f), r.ps)
            keepc == Without(NCols(f), c.ps)
        IN MkFrame(Take(f.index, keepr), Take(f.columns, keepc),
                   [j \in 1..Len(keepc) |-> [dt |-> At(f.cols, keepc[j]).dt, vals |-> Take(At(f.cols, keepc[j]).vals, keepr)]], f.name)
 NoneSel == Resolved(TRUE, <<>>)
-FrameDropIloc(f, rk, ck) == FrameDropResolved(f, IF rk = KAll THEN NoneSel ELSE IlocResolve(rk, NRows(f)),
-                                                 IF ck = KAll THEN NoneSel ELSE IlocResolve(ck, NCols(f)))
-FrameDropLoc(f, rk, ck) == FrameDropResolved(f, IF rk = KAll THEN NoneSel ELSE LocResolve(rk, f.index),
-                                                IF ck = KAll THEN NoneSel ELSE LocResolve(ck, f.columns))
 SeriesDropResolved(s, r) ==
   IF r.err THEN Err("lookup")
   ELSE LET keep == Without(Len(s.index), r.ps) IN MkSeries(Take(s.index, keep), Take(s.vals, keep), s.dt, s.name)
 
 (* ---- mask -------------------------------------------------------------------------------------------------  *)
 FrameMaskResolved(f, r, c) ==
-  IF r.err \/ c.err THEN Err("lookup")
+  IF c.err THEN Err("lookup")
+  ELSE IF Len(c.ps) = 0 THEN MkFrame(f.index, f.columns, [j \in 1..NCols(f) |-> [dt |-> DtB, vals |-> [i \in 1..NRows(f) |-> B(FALSE)]]], f.name)   \* as built: no column addressed, the row key is never looked at
+  ELSE IF r.err THEN Err("lookup")
   ELSE MkFrame(f.index, f.columns,
                [j \in 1..NCols(f) |-> [dt |-> DtB, vals |-> [i \in 1..NRows(f) |-> B(Member(r.ps, i - 1) /\ Member(c.ps, j - 1))]]], f.name)
 
@@ -152,6 +154,8 @@ FrameAssignElementResolved(f, r, c, v) ==
 (* ---- verdicts: which observable differs between an expected and an actual result ----------------------- *)
 Diff(e, a) ==
   IF e = a THEN "ok"
+  ELSE IF e.k = "unspecified" THEN "ok"
+  ELSE IF e.k = "err" /\ a.k = "err" /\ a.cat = "any" THEN "ok"     \* recorded with the error class left out of the observables
   ELSE IF e.k # a.k THEN "kind"
   ELSE CASE e.k = "err" -> "error_category"
          [] e.k = "elem" -> "value"
